@@ -8,6 +8,7 @@ import (
 	"time"
 
 	tally "github.com/uber-go/tally/v4"
+	"github.com/uber-go/tally/v4/m3"
 	"github.com/uber-go/tally/v4/multi"
 
 	"verifharness/mon"
@@ -210,10 +211,26 @@ func c19Cached(c *mon.Ctx, r *mon.Rand) {
 	}
 	wantRep, wantTag := c19Caps(r, recs)
 	var ops []string
-	desc := func() interface{} { return map[string]interface{}{"flavour": "cached", "children": n, "ops": ops} }
+	var m3first bool
+	desc := func() interface{} {
+		return map[string]interface{}{"flavour": "cached", "children": n, "m3_child_first": m3first, "ops": ops}
+	}
 	c.Eval(1)
 	c.Distinct(mon.Hash64("cached", fmt.Sprint(n, r.U64())))
 	c.Class(fmt.Sprintf("cached-children-%d", n), 1)
+	// every fourth history the first child is a real M3 reporter (the usual
+	// production pairing: M3 next to something else); the recording children
+	// behind it must still see every call with identical arguments
+	var m3child m3.Reporter
+	_ = m3child
+	if n > 0 && r.Chance(1, 4) {
+		if rep, err := m3.NewReporter(m3.Options{HostPorts: []string{mon.DeadPort()}, Service: "svc", Env: "test"}); err == nil {
+			m3child, m3first = rep, true
+			children = append([]tally.CachedStatsReporter{rep}, children...)
+			c.Class("cached-histories-with-an-m3-child-first", 1)
+			defer rep.Close()
+		}
+	}
 	c.Guard("panic-multi", desc, func() {
 		m := multi.NewMultiCachedReporter(children...)
 		if cp := m.Capabilities(); cp.Reporting() != wantRep || cp.Tagging() != wantTag {
@@ -227,25 +244,26 @@ func c19Cached(c *mon.Ctx, r *mon.Rand) {
 			if len(hs) == 0 || r.Chance(1, 4) {
 				name := pool.names[r.Intn(len(pool.names))]
 				tags := pool.tagMap(r, 3)
+				given := mon.CopyTags(tags) // the map handed to the reporter; expectations use the pristine one
 				h := &c19Handle{name: name, tags: tags}
 				switch r.Intn(4) {
 				case 0:
 					h.kind = "counter"
 					call := fmt.Sprintf("AllocateCounter(%q,%v)", name, tags)
 					ops = append(ops, call)
-					h.cnt = m.AllocateCounter(name, tags)
+					h.cnt = m.AllocateCounter(name, given)
 					c19After(c, recs, before, evSig(mon.Event{Kind: mon.EvAllocCounter, Name: name, Tags: tags}), call, desc)
 				case 1:
 					h.kind = "gauge"
 					call := fmt.Sprintf("AllocateGauge(%q,%v)", name, tags)
 					ops = append(ops, call)
-					h.g = m.AllocateGauge(name, tags)
+					h.g = m.AllocateGauge(name, given)
 					c19After(c, recs, before, evSig(mon.Event{Kind: mon.EvAllocGauge, Name: name, Tags: tags}), call, desc)
 				case 2:
 					h.kind = "timer"
 					call := fmt.Sprintf("AllocateTimer(%q,%v)", name, tags)
 					ops = append(ops, call)
-					h.t = m.AllocateTimer(name, tags)
+					h.t = m.AllocateTimer(name, given)
 					c19After(c, recs, before, evSig(mon.Event{Kind: mon.EvAllocTimer, Name: name, Tags: tags}), call, desc)
 				default:
 					h.kind = "histogram"
@@ -256,7 +274,7 @@ func c19Cached(c *mon.Ctx, r *mon.Rand) {
 					}
 					call := fmt.Sprintf("AllocateHistogram(%q,%v,%v)", name, tags, h.spec)
 					ops = append(ops, call)
-					h.h = m.AllocateHistogram(name, tags, h.spec)
+					h.h = m.AllocateHistogram(name, given, h.spec)
 					c19After(c, recs, before, evSig(mon.Event{Kind: mon.EvAllocHist, Name: name, Tags: tags, Spec: h.spec}), call, desc)
 				}
 				hs = append(hs, h)
